@@ -13,3 +13,7 @@ open IrVerif.Clone
 #print axioms C13_functionalize
 #print axioms C13_frame_orig_edited
 #print axioms C13_frame_orig_edited_model
+#print axioms C13_faithful
+#print axioms C13_faithful_function
+#print axioms C13_faithful_model
+#print axioms C13_faithful_serialize
